@@ -68,13 +68,19 @@ func main() {
 		for _, rs := range c.Routes {
 			_, _ = f.Handle(rs.Method, rs.Pattern, h)
 		}
-		// non-canonical variants: a '.' or '..' element captured by a wildcard is an ordinary value for the matcher
+		// non-canonical variants: a '.' or '..' element captured by a wildcard is an ordinary value for the matcher;
+		// each segment in turn is replaced (the variants that no longer match are dropped by the Lookup below)
 		var extra []route.Req
 		for _, q := range c.Reqs {
-			if k := strings.LastIndexByte(strings.TrimSuffix(q.Path, "/"), '/'); k >= 0 && r.IntN(4) == 0 {
-				dot := []string{".", "..", ".x"}[r.IntN(3)]
+			segs := strings.Split(q.Path, "/")
+			for k := 1; k < len(segs); k++ {
+				if segs[k] == "" || r.IntN(3) != 0 {
+					continue
+				}
 				t := q
-				t.Path = q.Path[:k+1] + dot + q.Path[k+1+len(strings.TrimSuffix(q.Path, "/")[k+1:]):]
+				cp := append([]string(nil), segs...)
+				cp[k] = []string{".", "..", ".x"}[r.IntN(3)]
+				t.Path = strings.Join(cp, "/")
 				extra = append(extra, t)
 			}
 		}
